@@ -110,6 +110,14 @@ Definition xmpp_ping (r : wres) : str * bool :=
    | WOk n => (n =? 1)%Z      (* n != 1 => "could not write ping" *)
    end).
 
+(* what the property calls a whitespace keep-alive: a non-empty run of XML white space
+   (space, tab, CR, LF).  The code writes "\n"; the correspondence compares this CLASS,
+   not the byte, so that another whitespace payload is not reported as a difference. *)
+Definition xml_ws (c : N) : bool :=
+  N.eqb c 32 || N.eqb c 9 || N.eqb c 13 || N.eqb c 10.
+Definition is_keepalive_payload (d : str) : bool :=
+  match d with [] => false | _ => forallb xml_ws d end.
+
 (* keepalive on the TCP transport: the k-th Write result decides the k-th Ping *)
 Definition tcp_fail (wr : nat -> wres) (k : nat) : bool := negb (snd (xmpp_ping (wr k))).
 (* everything the loop hands to conn.Write, concatenated *)
